@@ -3,6 +3,7 @@ package c17
 import (
 	"encoding/binary"
 	"fmt"
+	"golang.org/x/text/unicode/norm"
 	"strconv"
 
 	"pgregory.net/rapid"
@@ -715,11 +716,53 @@ func jsonOp(t *rapid.T, b, other []byte, typeDoc bool) ([]byte, string) {
 	}
 	pick := func(label string) int { return rapid.IntRange(0, len(toks)-1).Draw(t, label) }
 	vs := valueStarts(toks)
-	op := rapid.IntRange(0, 13).Draw(t, "jop")
+	op := rapid.IntRange(0, 14).Draw(t, "jop")
 	if typeDoc && (op == 4 || op == 5 || op == 6 || op == 9 || op == 12) {
 		op = 10 + op%2
+		if op == 10 && rapid.Bool().Draw(t, "respell") {
+			op = 14
+		}
 	}
 	switch op {
+	case 14: // re-spell a string (attribute name, key, value) in a canonically equivalent, non-normalized form - in one or in all of its occurrences
+		var ss []int
+		for i, k := range toks {
+			if k.Kind == 's' && k.End-k.Off >= 2 {
+				ss = append(ss, i)
+			}
+		}
+		if len(ss) == 0 {
+			return genericOp(t, b, other)
+		}
+		k := toks[rapid.SampledFrom(ss).Draw(t, "str")]
+		raw := string(b[k.Off:k.End])
+		inner := raw[1 : len(raw)-1]
+		var repl string
+		if d := norm.NFD.String(inner); d != inner && rapid.Bool().Draw(t, "nfd") {
+			repl = d
+		} else {
+			// a new name that is not NFC as written: a letter and a combining mark, literally or escaped
+			repl = rapid.SampledFrom([]string{"e\u0301", "\\u0065\\u0301", "\u1100\u1161", "a\u0323\u0307", "\u212b"}).Draw(t, "suffix")
+			if rapid.Bool().Draw(t, "keep") {
+				repl = inner + repl
+			}
+		}
+		repl = `"` + repl + `"`
+		if rapid.IntRange(0, 3).Draw(t, "all") == 0 {
+			return splice(b, k.Off, k.End, []byte(repl)), "respell-one"
+		}
+		// every occurrence of the same token text (an attribute and its entry in the optional list)
+		out := append([]byte(nil), b[:0]...)
+		last := 0
+		for _, q := range toks {
+			if q.Kind == 's' && string(b[q.Off:q.End]) == raw {
+				out = append(out, b[last:q.Off]...)
+				out = append(out, repl...)
+				last = q.End
+			}
+		}
+		out = append(out, b[last:]...)
+		return out, "respell-all"
 	case 0: // delimiter swap
 		var ds []int
 		for i, k := range toks {
